@@ -53,13 +53,16 @@ type Stats struct {
 	PrimaryIsDomain  bool
 	EmptyStruct      bool
 	Atoms            map[string]bool
+	AtomTypes        map[string]bool // atomic type names that received a value in the message
 	IntForms         map[string]bool
 	ValueNodes       int
 	SharedStruct     bool // some struct referenced from two places
 	UnreferencedType bool
 }
 
-func NewStats() *Stats { return &Stats{Atoms: map[string]bool{}, IntForms: map[string]bool{}} }
+func NewStats() *Stats {
+	return &Stats{Atoms: map[string]bool{}, IntForms: map[string]bool{}, AtomTypes: map[string]bool{}}
+}
 
 // identifier alphabet: no 'q' (reserved for the names of extra fields / extra types)
 const idFirst = "ABCXYZabcxyz_"
@@ -159,7 +162,7 @@ func GenGraph(rt *rapid.T, maxStructs int, dag bool) *Graph {
 func genMembers(rt *rapid.T, label string, names []string, self int, dag bool) []eip712ref.Member {
 	nm := rapid.IntRange(0, 6).Draw(rt, label+".nMembers")
 	if nm == 0 && rapid.IntRange(0, 3).Draw(rt, label+".reallyEmpty") != 0 {
-		nm = 1
+		nm = 2
 	}
 	mtaken := map[string]bool{}
 	var ms []eip712ref.Member
@@ -171,8 +174,15 @@ func genMembers(rt *rapid.T, label string, names []string, self int, dag bool) [
 		if dag {
 			lo = self + 1
 		}
-		if lo < len(names) && rapid.IntRange(0, 99).Draw(rt, ml+".isRef") < 40 {
-			base = names[rapid.IntRange(lo, len(names)-1).Draw(rt, ml+".ref")]
+		// (small ranges: rapid's integer generators are biased towards the low end of wide ranges)
+		if lo < len(names) && rapid.IntRange(0, 4).Draw(rt, ml+".isRef") < 2 {
+			// half of the references go to the next struct in definition order, which
+			// makes long chains (and, without dag, cycles through the whole graph) reachable
+			if next := self + 1; self >= 0 && rapid.Bool().Draw(rt, ml+".next") && (next < len(names) || !dag) {
+				base = names[next%len(names)]
+			} else {
+				base = names[rapid.IntRange(lo, len(names)-1).Draw(rt, ml+".ref")]
+			}
 		} else {
 			base = AtomicType(rt, ml)
 		}
@@ -289,6 +299,7 @@ func (c *Ctx) Atomic(label string, kind eip712ref.AtomicKind, size int, typeName
 	rt := c.RT
 	c.nodes++
 	c.Stats.ValueNodes++
+	c.Stats.AtomTypes[typeName] = true
 	switch kind {
 	case eip712ref.KUint:
 		c.Stats.Atoms["uint"] = true
@@ -361,13 +372,13 @@ func (c *Ctx) dims(label string, base string, dims []int, budget int, top bool) 
 		return arr, false
 	}
 	if _, isStruct := c.Types[base]; isStruct {
-		pAbsent := 25
+		pAbsent := 1 // of 5
 		if budget <= 0 || c.nodes > nodeBudget {
-			pAbsent = 100
+			pAbsent = 5
 		} else if budget == 1 {
-			pAbsent = 60
+			pAbsent = 3
 		}
-		if rapid.IntRange(0, 99).Draw(rt, label+".absent") < pAbsent {
+		if rapid.IntRange(0, 4).Draw(rt, label+".absent") < pAbsent {
 			if top && rapid.Bool().Draw(rt, label+".omit") {
 				c.Stats.AbsentOmitted++
 				return nil, true
